@@ -124,6 +124,9 @@ static void c17_unweighted(vr_rng *r)
     for (size_t q = 0; q < nsplit && vr_nviol == 0; q++) {
         size_t cut = n <= 50 ? q : vr_below(r, n + 1);
         struct cmb_datasummary *a = cmb_datasummary_create(), *b = cmb_datasummary_create(), *t = cmb_datasummary_create();
+        /* earlier lives: operands that were used and reset, a target that still holds older content (a merge overwrites its target) */
+        if (vr_chance(r, 1, 2)) { for (int k = 0; k < 7; k++) { cmb_datasummary_add(a, 1e3 + 17.0 * k); cmb_datasummary_add(b, -5.0 - k * k); } cmb_datasummary_reset(a); cmb_datasummary_reset(b); VR_CNT("merge_operands_with_an_earlier_life"); }
+        if (vr_chance(r, 1, 2)) { for (int k = 0; k < 5; k++) cmb_datasummary_add(t, 2.0 + 11.0 * k); VR_CNT("merge_targets_holding_older_content"); }
         for (size_t k = 0; k < cut; k++) cmb_datasummary_add(a, x[k]);
         for (size_t k = cut; k < n; k++) cmb_datasummary_add(b, x[k]);
         int shape = (int)vr_below(r, 4);      /* 0: t<-a,b  1: t<-b,a  2: a<-a,b  3: b<-a,b */
@@ -232,11 +235,14 @@ static void c17_weighted(vr_rng *r)
     /* weighted merge == concatenation (compared against the directly built summary) */
     if (vr_nviol == 0) {
         size_t cut = vr_below(r, n + 1); if (vr_chance(r, 1, 4)) cut = vr_chance(r, 1, 2) ? 0 : n;
-        struct cmb_wtdsummary *a = cmb_wtdsummary_create(), *b = cmb_wtdsummary_create();
+        struct cmb_wtdsummary *a = cmb_wtdsummary_create(), *b = cmb_wtdsummary_create(), *t = cmb_wtdsummary_create();
+        if (vr_chance(r, 1, 2)) { for (int k = 0; k < 7; k++) { cmb_wtdsummary_add(a, 1e3 + 17.0 * k, 1.0 + k); cmb_wtdsummary_add(b, -5.0 - k * k, 0.5); } cmb_wtdsummary_reset(a); cmb_wtdsummary_reset(b); VR_CNT("weighted_merge_operands_with_an_earlier_life"); }
+        if (vr_chance(r, 1, 2)) { for (int k = 0; k < 5; k++) cmb_wtdsummary_add(t, 2.0 + 11.0 * k, 3.0); VR_CNT("weighted_merge_targets_holding_older_content"); }
         for (size_t k = 0; k < cut; k++) cmb_wtdsummary_add(a, x[k], w[k]);
         for (size_t k = cut; k < n; k++) cmb_wtdsummary_add(b, x[k], w[k]);
-        int shape = (int)vr_below(r, 3); struct cmb_wtdsummary *res = a;
-        if (shape == 0) cmb_wtdsummary_merge(a, a, b); else if (shape == 1) { cmb_wtdsummary_merge(b, a, b); res = b; } else { cmb_wtdsummary_merge(a, b, a); }
+        int shape = (int)vr_below(r, 5); struct cmb_wtdsummary *res = a;
+        if (shape == 0) cmb_wtdsummary_merge(a, a, b); else if (shape == 1) { cmb_wtdsummary_merge(b, a, b); res = b; } else if (shape == 2) { cmb_wtdsummary_merge(a, b, a); }
+        else if (shape == 3) { cmb_wtdsummary_merge(t, a, b); res = t; } else { cmb_wtdsummary_merge(t, b, a); res = t; }
         VR_CNT("weighted_merges"); if (cmb_wtdsummary_count(a) == 0 || cut == 0 || cut == n) VR_CNT("weighted_merge_with_empty");
         const char *bad = NULL;
         if (cmb_wtdsummary_count(res) != np) bad = "count";
@@ -247,7 +253,7 @@ static void c17_weighted(vr_rng *r)
         if (bad) { char kb[64]; snprintf(kb, sizeof kb, "C17/wtd-merge/%s", bad); vr_violation(kb, "weighted merge (shape %d) of %zu + %zu: %s differs from the summary of the concatenation", shape, cut, n - cut, bad); }
         /* the merged summary must stay usable */
         if (vr_nviol == 0) { cmb_wtdsummary_add(res, 1.5, 2.0); cmb_wtdsummary_add(s, 1.5, 2.0); if (!rel_close(cmb_wtdsummary_mean(res), cmb_wtdsummary_mean(s), 1e-9, 1e-9 * (mx - mn + 1))) vr_violation("C17/wtd-merge/poisoned", "adding to a merged summary (%zu + %zu) gives mean %g, expected %g", cut, n - cut, cmb_wtdsummary_mean(res), cmb_wtdsummary_mean(s)); }
-        cmb_wtdsummary_destroy(a); cmb_wtdsummary_destroy(b);
+        cmb_wtdsummary_destroy(a); cmb_wtdsummary_destroy(b); cmb_wtdsummary_destroy(t);
     }
     if (np >= 4) vr_mark_nontrivial();
     cmb_wtdsummary_destroy(s); free(x); free(w);
@@ -538,6 +544,29 @@ static void c18_acf(vr_rng *r)
         }
         VR_CNT("acf_scale_relations");
         free(acf2); free(pacf2); cmb_dataset_destroy(d2);
+    }
+    /* far shifts: data at a huge distance from zero relative to its spread (counters, timestamps). The samples are made integer
+     * valued first so that x + c is exact and the shifted data are the same data; c up to 1e10 keeps the mean's rounding error far
+     * below the tolerance */
+    if (vr_nviol == 0) {
+        double *xi = malloc(n * sizeof *xi); bool same = true;
+        for (size_t k = 0; k < n; k++) { xi[k] = cls == 3 ? x[k] : floor(x[k] * 40.0); if (xi[k] != xi[0]) same = false; }
+        if (!same) {
+            struct cmb_dataset *d0 = cmb_dataset_create(); for (size_t k = 0; k < n; k++) cmb_dataset_add(d0, xi[k]);
+            double *acf0 = calloc(lags + 2, sizeof *acf0); cmb_dataset_ACF(d0, lags, acf0);
+            static const double cs[] = { 1e6, 1e8, 1e9, 1e10, -3e9, -1e10 };
+            for (int q = 0; q < 6 && vr_nviol == 0; q++) {
+                double sc = (q & 1) ? 8.0 : 1.0;
+                struct cmb_dataset *d2 = cmb_dataset_create(); for (size_t k = 0; k < n; k++) cmb_dataset_add(d2, sc * (xi[k] + cs[q]));
+                double *acf2 = calloc(lags + 2, sizeof *acf2); cmb_dataset_ACF(d2, lags, acf2);
+                for (unsigned l = 0; l <= lags; l++) if (fabs(acf2[l] - acf0[l]) > 1e-5 * (1 + fabs(acf0[l]))) {
+                    vr_violation("C18/acf-shift/changed", "ACF[%u] changed from %.10g to %.10g under x -> %g*(x + %g) for integer-valued data (n=%zu)", l, acf0[l], acf2[l], sc, cs[q], n); break; }
+                VR_CNT("acf_far_shift_relations");
+                free(acf2); cmb_dataset_destroy(d2);
+            }
+            free(acf0); cmb_dataset_destroy(d0);
+        }
+        free(xi);
     }
     vr_mark_nontrivial();
     free(acf); free(pacf); cmb_dataset_destroy(d); free(x);
